@@ -263,7 +263,10 @@ fn render_exec(out: &mut String, x: &Exec, dm: Dm, ind: usize) {
             } else {
                 out.push_str(">");
                 for (n, e) in params {
-                    if let (Some(name), Expr::Var(loc)) = (n.strip_prefix("@loc:"), e) {
+                    if n == "@content" {
+                        // the payload is the value of an expression (<content expr>), not name/value pairs
+                        out.push_str(&format!("<content expr=\"{}\"/>", esc(&render_expr(e, dm))));
+                    } else if let (Some(name), Expr::Var(loc)) = (n.strip_prefix("@loc:"), e) {
                         // the value of a location (arrays and maps can be passed this way)
                         out.push_str(&format!("<param name=\"{}\" location=\"{}\"/>", name, loc));
                     } else {
